@@ -436,7 +436,56 @@ func c18b(c *Ctx) {
 					}
 				}
 			}
+			// counterBounded: some counter moves on every way round the loop and is tested against a bound
+			counterBounded := func() bool {
+				okBound := false
+				for _, in := range h.Instrs {
+					p, ok := in.(*ssa.Phi)
+					if !ok {
+						continue
+					}
+					pt := c.T(fn).Term(p)
+					// the counter moves on EVERY way round the loop (one way that leaves it where it
+					// was is an endless loop)
+					step, nBack := true, 0
+					for i, e := range p.Edges {
+						if h.Dominates(h.Preds[i]) {
+							nBack++
+							et := c.T(fn).Term(e)
+							moves := et == pt+"+1" || et == pt+"-1"
+							if ok, min := incOnly(e, p, map[ssa.Value]bool{}); ok && min >= 1 {
+								moves = true
+							}
+							step = step && moves
+						}
+					}
+					step = step && nBack > 0
+					if !step {
+						continue
+					}
+					if ifi, ok := h.Instrs[len(h.Instrs)-1].(*ssa.If); ok {
+						ct := c.T(fn).Term(ifi.Cond)
+						if strings.Contains(ct, pt) && (strings.Contains(ct, " < ") || strings.Contains(ct, " <= ")) {
+							okBound = true
+						}
+					}
+					// counter tested inside the body (for i < n with the test on another block)
+					for b := range body {
+						if ifi, ok := b.Instrs[len(b.Instrs)-1].(*ssa.If); ok {
+							ct := c.T(fn).Term(ifi.Cond)
+							if strings.Contains(ct, pt) && strings.Contains(ct, " < ") {
+								okBound = true
+							}
+						}
+					}
+				}
+				return okBound
+			}
 			switch {
+			case pkg == "parser" && usesWindow && counterBounded():
+				// a counted loop (`for i := 0; i < n; i++ { p.nextToken() }`) ends by its counter
+				nData++
+				c.OK(key+"/bounded", pos, "counter loop with a monotone index tested against a bound")
 			case pkg == "parser" && usesWindow:
 				nTok++
 				isAdv := func(in ssa.Instruction) bool {
@@ -480,47 +529,7 @@ func c18b(c *Ctx) {
 			default:
 				// data loop: a range or a bounded counter
 				nData++
-				okBound := false
-				for _, in := range h.Instrs {
-					p, ok := in.(*ssa.Phi)
-					if !ok {
-						continue
-					}
-					pt := c.T(fn).Term(p)
-					// the counter moves on EVERY way round the loop (one way that leaves it where it
-					// was is an endless loop)
-					step, nBack := true, 0
-					for i, e := range p.Edges {
-						if h.Dominates(h.Preds[i]) {
-							nBack++
-							et := c.T(fn).Term(e)
-							moves := et == pt+"+1" || et == pt+"-1"
-							if ok, min := incOnly(e, p, map[ssa.Value]bool{}); ok && min >= 1 {
-								moves = true
-							}
-							step = step && moves
-						}
-					}
-					step = step && nBack > 0
-					if !step {
-						continue
-					}
-					if ifi, ok := h.Instrs[len(h.Instrs)-1].(*ssa.If); ok {
-						ct := c.T(fn).Term(ifi.Cond)
-						if strings.Contains(ct, pt) && (strings.Contains(ct, " < ") || strings.Contains(ct, " <= ")) {
-							okBound = true
-						}
-					}
-					// counter tested inside the body (for i < n with the test on another block)
-					for b := range body {
-						if ifi, ok := b.Instrs[len(b.Instrs)-1].(*ssa.If); ok {
-							ct := c.T(fn).Term(ifi.Cond)
-							if strings.Contains(ct, pt) && strings.Contains(ct, " < ") {
-								okBound = true
-							}
-						}
-					}
-				}
+				okBound := counterBounded()
 				for _, in := range h.Instrs {
 					if _, ok := in.(*ssa.Next); ok {
 						okBound = true // range over map / string
